@@ -185,14 +185,27 @@ class Upper:
 
 
 class Boom:
-    """A custom converter failing on a marker substring."""
+    """A custom converter failing on a marker substring (with any exception type)."""
+
+    exc = ValueError
 
     def unicode_to_latex(self, s):
         if "BOOM" in s:
-            raise ValueError("boom in " + s)
+            raise self.exc("boom in " + s)
         return s + "!"
 
     latex_to_text = unicode_to_latex
+
+
+class MyError(Exception):
+    pass
+
+
+def boom_variants():
+    for exc in (ValueError, RuntimeError, TypeError, KeyError, IndexError, RecursionError, AttributeError, MyError, UnicodeError):
+        b = Boom()
+        b.exc = exc
+        yield b
 
 
 def catalogue():
@@ -346,7 +359,90 @@ def check_big(n, acc):
                     acc.violation({"oracle": "roundtrip", "cause": "big library"}, {"case": case, "observed": vals2[i], "expected": vals[i]}, size=n)
 
 
+def check_contain_types(acc):
+    """A conversion failure is contained whatever exception the converter fails with; also the shipped converters on
+    deeply nested values (the third-party parser recurses)."""
+    for enc in (True, False):
+        for ip in (True, False):
+            for b in boom_variants():
+                m = LatexEncodingMiddleware(encoder=b, allow_inplace_modification=ip) if enc else LatexDecodingMiddleware(decoder=b, allow_inplace_modification=ip)
+                lib = Library([Entry("a", "k", [Field("t", "x BOOM"), Field("u", "fine")], 0, "@a{k}"), String("s", "BOOM"), Entry("b", "j", [Field("v", "fine")])])
+                case = {"contain_exception_type": b.exc.__name__, "encoder": enc, "inplace": ip}
+                acc.trace()
+                acc.case(nontrivial_key=("contain-type", b.exc.__name__, enc, ip))
+                try:
+                    out = m.transform(lib)
+                except BaseException as ex:
+                    acc.violation({"oracle": "conversion_failure_contained", "exception": type(ex).__name__}, {"case": case, "observed": repr(ex)[:200], "expected": "a middleware-error block, no exception"})
+                    continue
+                b0, b2 = out.blocks[0], out.blocks[2]
+                ok = isinstance(b0, MiddlewareErrorBlock) and isinstance(b0.ignore_error_block, Entry) and b0.ignore_error_block.fields[0].value == "x BOOM" and type(b2) is Entry and b2.fields[0].value == "fine!"
+                acc.step(("contain-type", enc), b.exc.__name__, "ok" if ok else "bad")
+                if not ok:
+                    acc.violation({"oracle": "error_block_holds_original_entry", "where": "exception type " + b.exc.__name__}, {"case": case, "observed": [type(x).__name__ for x in out.blocks], "expected": "error block for the failing entry, the other entry converted"})
+    for depth in (10, 100, 400, 1000, 3000):
+        for ip in (True, False):
+            for which in ("enc", "dec"):
+                v = "{" * depth + "x \\'e" + "}" * depth
+                lib = Library([Entry("a", "deep", [Field("t", v)], 0, "@a{deep}"), Entry("b", "j", [Field("v", "fine")])])
+                m = LatexEncodingMiddleware(allow_inplace_modification=ip) if which == "enc" else LatexDecodingMiddleware(allow_inplace_modification=ip)
+                case = {"deep_nesting": depth, "middleware": which, "inplace": ip}
+                acc.trace()
+                acc.case(nontrivial_key=("deep", depth, which, ip))
+                try:
+                    out = m.transform(lib)
+                except BaseException as ex:
+                    acc.violation({"oracle": "conversion_failure_contained", "exception": type(ex).__name__}, {"case": case, "observed": repr(ex)[:200], "expected": "a converted entry or a middleware-error block, no exception"}, size=depth)
+                    continue
+                b0 = out.blocks[0]
+                inner = b0.ignore_error_block if isinstance(b0, MiddlewareErrorBlock) else b0
+                if not (isinstance(inner, Entry) and isinstance(inner.fields[0].value, str) and len(out.blocks) == 2 and (not isinstance(b0, MiddlewareErrorBlock) or inner.fields[0].value == v)):
+                    acc.violation({"oracle": "error_block_holds_original_entry", "where": "deeply nested value"}, {"case": case, "observed": repr(b0)[:200], "expected": "entry converted, or error block holding the original value"}, size=depth)
+
+
+def check_shared(acc):
+    """NameParts values whose part lists are shared objects (a copied NameParts, the same list used for two parts):
+    every string is converted exactly once."""
+    import copy as _copy
+
+    for ip in (True, False):
+        # (two fields holding the very same NameParts OBJECT are converted field by field, i.e. twice; what should happen to
+        #  aliased values inside the input is not specified by the property and not judged)
+        for how in ("copy.copy", "same list twice"):
+            shared = ["Jos\xe9", "M\xfcller"]
+            np1 = NameParts(first=shared, last=["X"])
+            if how == "copy.copy":
+                np2 = _copy.copy(np1)
+                fields = [Field("author", np1), Field("editor", np2)]
+            elif how == "same list twice":
+                np1 = NameParts(first=shared, last=shared)
+                fields = [Field("author", np1)]
+            else:
+                fields = [Field("author", np1), Field("editor", np1)]
+            lib = Library([Entry("a", "k", fields)])
+            case = {"shared_lists": how, "inplace": ip}
+            acc.trace(2)
+            acc.case(nontrivial_key=("shared", how, ip))
+            try:
+                enc = LatexEncodingMiddleware(allow_inplace_modification=ip).transform(lib)
+                vals = []
+                for f in enc.blocks[0].fields:
+                    vals += list(f.value.first) + list(f.value.last)
+                ref = LatexEncodingMiddleware().transform(Library([Entry("a", "r", [Field("t", "Jos\xe9"), Field("u", "M\xfcller"), Field("x", "X")])])).blocks[0]
+                exp = {"Jos\xe9": ref.fields[0].value, "M\xfcller": ref.fields[1].value, "X": "X"}
+            except Exception as ex:
+                acc.violation({"oracle": "no_exception", "exception": type(ex).__name__}, {"case": case, "observed": repr(ex), "expected": "no exception"})
+                continue
+            if not set(vals) <= set(exp.values()):
+                acc.violation(
+                    {"oracle": "name_part_strings_converted_once", "how": how},
+                    {"case": case, "observed": vals, "expected": sorted(exp.values())},
+                )
+
+
 def check_contain(acc):
+    check_contain_types(acc)
+    check_shared(acc)
     for enc in (True, False):
         for ip in (True, False):
             # an entry with ONE field whose value has several name parts, the failing one last
